@@ -12,7 +12,7 @@ from iOpt.trial import Point, FunctionValue, FunctionType
 LEVEL = "exploration"
 RULE = ("long interleaved histories of constructions and evaluations over pools of live instances of all eight families (two instances of the same member included, members "
         "drawn across their ranges, points as arrays and lists, repeated points, StronginC3 objective and its three constraints): every evaluation is compared bitwise with "
-        "the canonical value = first evaluation on a freshly constructed instance (the bit-identical point is also put to sibling members of the family back to back, repeated immediately, evaluated first after construction at the declared optimum, and holders handed back by earlier calls are reused), the point is compared with a copy taken before the call, the returned object must be the "
+        "the canonical value = first evaluation on a freshly constructed instance (the bit-identical point is also put to sibling members of the family back to back, repeated immediately, evaluated first after construction at the declared optimum, holders handed back by earlier calls are reused, integer and half-integer lattice points are included and integer points are also handed over with integer type), the point is compared with a copy taken before the call, the returned object must be the "
         "supplied holder carrying the value; a sample of keys is re-evaluated in a fresh interpreter. Non-trivial: a history with >= 50 evaluations over >= 5 instances; "
         "distinct = distinct (family, member, point, function id) keys evaluated.")
 ASSUMPTIONS = ["values are compared bitwise (same machine, same libm)", "points inside the box of the instance"]
@@ -57,6 +57,8 @@ def run_case(c):
     fam_points = {}    # (family, dimension) -> points used by ANY member of the family (siblings share their box)
     last_ret = [None]  # the holder returned by the previous objective evaluation (library idiom: fv = p.Calculate(pt, fv))
 
+    integer_ok = True
+
     def do_eval(key, inst, y, fid, how):
         nonlocal nev
         ck = (key, y.tobytes(), fid)
@@ -72,6 +74,10 @@ def run_case(c):
                 xq.append((list(key), [float(v) for v in y], canon[ck]))
         as_list = rng.random() < 0.3
         arg = [float(v) for v in y] if as_list else y.copy()
+        if integer_ok and bool(np.all(y == np.rint(y))) and rng.random() < 0.6:
+            # an integer point of the box handed over with integer type (list of Python ints / integer ndarray)
+            arg = [int(v) for v in y] if as_list else np.array([int(v) for v in y])
+            obs["integer_typed_points"] = obs.get("integer_typed_points", 0) + 1
         before = list(arg) if as_list else arg.copy()
         pt = Point(arg, [])
         if fid is None and last_ret[0] is not None and rng.random() < 0.3:
@@ -127,7 +133,12 @@ def run_case(c):
             inst = bench.construct(key)
             pool.append((key, inst))
             obs["constructions"] = obs.get("constructions", 0) + 1
-            if rng.random() < 0.5:
+            if rng.random() < 0.3:
+                # the very first evaluation of the new instance is at an integer point given with integer type
+                lo_, hi_ = bench.bounds(inst)
+                yi = np.array([float(rng.integers(int(np.ceil(a)), int(np.floor(b)) + 1)) for a, b in zip(lo_, hi_)])
+                do_eval(key, inst, yi, None, "integer-point-first")
+            elif rng.random() < 0.5:
                 # the very first evaluation after construction is at the declared optimum point (constructors evaluate there)
                 try:
                     yd, _ = bench.declared(inst)
@@ -159,6 +170,12 @@ def run_case(c):
             except Exception:
                 y = 0.5 * (lo + hi)
                 how = "centre"
+        elif u < 0.72:
+            # lattice points: coordinates that are multiples of 1/2 (integers and half-integers of the box)
+            y = np.clip(np.rint((lo + rng.random(len(lo)) * (hi - lo)) * 2.0) / 2.0, lo, hi)
+            if rng.random() < 0.5:
+                y = np.clip(np.rint(y), np.ceil(lo), np.floor(hi))
+            how = "lattice"
         else:
             y = lo + rng.random(len(lo)) * (hi - lo)
             if rng.random() < 0.1:
@@ -211,7 +228,7 @@ def finalize(obs, tier, stats):
         return "not all eight families evaluated: %s" % obs.get("families"), {}
     if not obs.get("fresh_interpreter_values"):
         return "fresh-interpreter comparison never ran", {}
-    missing = [k for k in ("cross_member_same_point", "how_immediate-repeat", "how_declared-point-first", "holder_reused", "how_repeat-family") if not obs.get(k)]
+    missing = [k for k in ("cross_member_same_point", "how_immediate-repeat", "how_declared-point-first", "holder_reused", "how_repeat-family", "integer_typed_points", "how_lattice", "how_integer-point-first") if not obs.get(k)]
     if missing:
         return "history shapes never produced: %s" % missing, {}
     return None, {}
